@@ -23,9 +23,37 @@ abbrev H := Except Panic (St × Bool)
 def okH (s : St) : H := .ok (s, true)
 def errH (s : St) : H := .ok (s, false)
 
+/-! ### state update primitives (one per field; the proofs never unfold them, see Lemmas/Broker/Prim.lean) -/
+
+def St.setConns (s : St) (x : List (ConnId × Conn)) : St := { s with b := { s.b with conns := x } }
+def St.setObjUuids (s : St) (x : List (Cookie × Uuid)) : St := { s with b := { s.b with objUuids := x } }
+def St.setObjs (s : St) (x : List (Uuid × Obj)) : St := { s with b := { s.b with objs := x } }
+def St.setSvcUuids (s : St) (x : List (Cookie × (ObjId × Uuid × SvcInfo))) : St := { s with b := { s.b with svcUuids := x } }
+def St.setSvcs (s : St) (x : List ((Uuid × Uuid) × Svc)) : St := { s with b := { s.b with svcs := x } }
+def St.setCalls (s : St) (x : SerialMap Call) : St := { s with b := { s.b with calls := x } }
+def St.setChannels (s : St) (x : List (Cookie × Chan)) : St := { s with b := { s.b with channels := x } }
+def St.setListeners (s : St) (x : List (Cookie × Listener)) : St := { s with b := { s.b with listeners := x } }
+def St.setIntrospection (s : St) (x : List (Uuid × IEntry)) : St := { s with b := { s.b with introspection := x } }
+def St.setIqueries (s : St) (x : SerialMap Uuid) : St := { s with b := { s.b with iqueries := x } }
+def St.setNextCookie (s : St) (x : Cookie) : St := { s with b := { s.b with nextCookie := x } }
+def St.setWShutdownNow (s : St) (x : Bool) : St := { s with w := { s.w with shutdownNow := x } }
+def St.setWShutdownIdle (s : St) (x : Bool) : St := { s with w := { s.w with shutdownIdle := x } }
+def St.setWRemoveConns (s : St) (x : List (ConnId × Bool)) : St := { s with w := { s.w with removeConns := x } }
+def St.setWRemoveCalls (s : St) (x : List (Nat × ConnId × CallResult)) : St := { s with w := { s.w with removeCalls := x } }
+def St.setWServicesDestroyed (s : St) (x : List (ConnId × Cookie)) : St := { s with w := { s.w with servicesDestroyed := x } }
+def St.setWUnsubscribeEvent (s : St) (x : List (ConnId × Cookie × Nat)) : St := { s with w := { s.w with unsubscribeEvent := x } }
+def St.setWUnsubscribeAll (s : St) (x : List (ConnId × Cookie)) : St := { s with w := { s.w with unsubscribeAll := x } }
+def St.setWCreateObject (s : St) (x : List ObjId) : St := { s with w := { s.w with createObject := x } }
+def St.setWDestroyObject (s : St) (x : List ObjId) : St := { s with w := { s.w with destroyObject := x } }
+def St.setWCreateService (s : St) (x : List SvcId) : St := { s with w := { s.w with createService := x } }
+def St.setWDestroyService (s : St) (x : List SvcId) : St := { s with w := { s.w with destroyService := x } }
+def St.setWAbortCalls (s : St) (x : List (Nat × ConnId)) : St := { s with w := { s.w with abortCalls := x } }
+def St.setOut (s : St) (x : List Out) : St := { s with out := x }
+def St.stat (s : St) (f : Stats → Stats) : St := { s with b := { s.b with stats := f s.b.stats } }
+
 def St.conn? (s : St) (id : ConnId) : Option Conn := AL.find? id s.b.conns
 
-def St.setConn (s : St) (id : ConnId) (c : Conn) : St := { s with b := { s.b with conns := AL.insert id c s.b.conns } }
+def St.setConn (s : St) (id : ConnId) (c : Conn) : St := s.setConns (AL.insert id c s.b.conns)
 
 def St.updConn (s : St) (id : ConnId) (f : Conn → Conn) : St :=
   match s.conn? id with
@@ -35,13 +63,13 @@ def St.updConn (s : St) (id : ConnId) (f : Conn → Conn) : St :=
 /-- `send!`: put a message into a connection's queue. Fails iff the connection's task no longer
 holds the receiving end. `messages_sent` counts attempts. -/
 def St.send (s : St) (to : ConnId) (m : Rsp) (ver : Option Nat := none) : St × Bool :=
-  let s := { s with b := { s.b with stats := { s.b.stats with messagesSent := s.b.stats.messagesSent + 1 } } }
+  let s := s.stat (fun st => { st with messagesSent := st.messagesSent + 1 })
   match s.conn? to with
-  | some c => if c.alive then ({ s with out := s.out ++ [⟨to, m, ver⟩] }, true) else (s, false)
+  | some c => if c.alive then ((s.setOut (s.out ++ [⟨to, m, ver⟩])), true) else (s, false)
   | none => (s, false)
 
 def St.pushRemoveConn (s : St) (id : ConnId) (sendShutdown : Bool := false) : St :=
-  { s with w := { s.w with removeConns := (id, sendShutdown) :: s.w.removeConns } }
+  (s.setWRemoveConns ((id, sendShutdown) :: s.w.removeConns))
 
 /-- send to some connection; on failure queue *that* connection for removal -/
 def St.sendOrRemove (s : St) (to : ConnId) (m : Rsp) (ver : Option Nat := none) : St :=
@@ -49,9 +77,8 @@ def St.sendOrRemove (s : St) (to : ConnId) (m : Rsp) (ver : Option Nat := none) 
   if ok then s else s.pushRemoveConn to
 
 def St.freshCookie (s : St) : St × Cookie :=
-  ({ s with b := { s.b with nextCookie := s.b.nextCookie + 1 } }, s.b.nextCookie)
+  ((s.setNextCookie (s.b.nextCookie + 1)), s.b.nextCookie)
 
-def St.stat (s : St) (f : Stats → Stats) : St := { s with b := { s.b with stats := f s.b.stats } }
 
 /-! ### removal helpers -/
 
@@ -59,7 +86,7 @@ def removeBusListener (s : St) (cookie : Cookie) : St :=
   match AL.find? cookie s.b.listeners with
   | none => s
   | some l =>
-    let s := { s with b := { s.b with listeners := AL.erase cookie s.b.listeners } }
+    let s := (s.setListeners (AL.erase cookie s.b.listeners))
     let s := s.updConn l.conn (fun c => { c with busListeners := sremove cookie c.busListeners })
     s.stat (fun st => { st with numBusListeners := st.numBusListeners - 1 })
 
@@ -68,15 +95,15 @@ def removeService (s : St) (svcCookie : Cookie) : Except Panic St :=
   match AL.find? svcCookie s.b.svcUuids with
   | none => .ok s
   | some (objId, svcUuid, _) =>
-    let s := { s with b := { s.b with svcUuids := AL.erase svcCookie s.b.svcUuids } }
+    let s := (s.setSvcUuids (AL.erase svcCookie s.b.svcUuids))
     match AL.find? (objId.uuid, svcUuid) s.b.svcs with
     | none => .error (.inconsistent "remove_service: svcs")
     | some svc =>
-      let s := { s with b := { s.b with svcs := AL.erase (objId.uuid, svcUuid) s.b.svcs } }
+      let s := (s.setSvcs (AL.erase (objId.uuid, svcUuid) s.b.svcs))
       let s := match AL.find? objId.uuid s.b.objs with
-        | some o => { s with b := { s.b with objs := AL.insert objId.uuid { o with svcs := sremove svcCookie o.svcs } s.b.objs } }
+        | some o => (s.setObjs (AL.insert objId.uuid { o with svcs := sremove svcCookie o.svcs } s.b.objs))
         | none => s
-      let s := { s with w := { s.w with destroyService := ⟨objId, svcUuid, svcCookie⟩ :: s.w.destroyService } }
+      let s := (s.setWDestroyService (⟨objId, svcUuid, svcCookie⟩ :: s.w.destroyService))
       -- pending calls
       let rec calls (s : St) : List Nat → Except Panic St
         | [] => .ok s
@@ -84,9 +111,9 @@ def removeService (s : St) (svcCookie : Cookie) : Except Panic St :=
           match s.b.calls.get? serial with
           | none => .error (.inconsistent "remove_service: function_calls")
           | some call =>
-            let s := { s with b := { s.b with calls := s.b.calls.remove serial } }
+            let s := (s.setCalls (s.b.calls.remove serial))
             let s := if call.aborted then s else
-              { s with w := { s.w with removeCalls := (call.callerSerial, call.callerConn, CallResult.invalidService) :: s.w.removeCalls } }
+              (s.setWRemoveCalls ((call.callerSerial, call.callerConn, CallResult.invalidService) :: s.w.removeCalls))
             calls s rest
       match calls s svc.calls with
       | .error e => .error e
@@ -95,7 +122,7 @@ def removeService (s : St) (svcCookie : Cookie) : Except Panic St :=
           match s.conn? cid with
           | some c =>
             let s := s.setConn cid (c.unsubscribeAllOf svcCookie)
-            { s with w := { s.w with servicesDestroyed := (cid, svcCookie) :: s.w.servicesDestroyed } }
+            (s.setWServicesDestroyed ((cid, svcCookie) :: s.w.servicesDestroyed))
           | none => s) s
         .ok (s.stat (fun st => { st with numServices := st.numServices - 1 }))
 
@@ -104,13 +131,13 @@ def removeObject (s : St) (objCookie : Cookie) : Except Panic St :=
   match AL.find? objCookie s.b.objUuids with
   | none => .ok s
   | some objUuid =>
-    let s := { s with b := { s.b with objUuids := AL.erase objCookie s.b.objUuids } }
+    let s := (s.setObjUuids (AL.erase objCookie s.b.objUuids))
     match AL.find? objUuid s.b.objs with
     | none => .error (.inconsistent "remove_object: objs")
     | some obj =>
-      let s := { s with b := { s.b with objs := AL.erase objUuid s.b.objs } }
+      let s := (s.setObjs (AL.erase objUuid s.b.objs))
       let s := s.updConn obj.conn (fun c => { c with objects := sremove objCookie c.objects })
-      let s := { s with w := { s.w with destroyObject := ⟨objUuid, objCookie⟩ :: s.w.destroyObject } }
+      let s := (s.setWDestroyObject (⟨objUuid, objCookie⟩ :: s.w.destroyObject))
       let rec svcs (s : St) : List Cookie → Except Panic St
         | [] => .ok s
         | c :: rest => match removeService s c with
@@ -130,11 +157,11 @@ def removeEventSubscription (s : St) (cid : ConnId) (svcCookie : Cookie) (ev : N
     | none => .error (.inconsistent "remove_event_subscription: svcs")
     | some svc =>
       let (svc, last) := svc.unsubscribeEvent ev cid
-      let s := { s with b := { s.b with svcs := AL.insert (objId.uuid, svcUuid) svc s.b.svcs } }
+      let s := (s.setSvcs (AL.insert (objId.uuid, svcUuid) svc s.b.svcs))
       if last then
         match AL.find? objId.uuid s.b.objs with
         | none => .error (.inconsistent "remove_event_subscription: objs")
-        | some obj => .ok { s with w := { s.w with unsubscribeEvent := (obj.conn, svcCookie, ev) :: s.w.unsubscribeEvent } }
+        | some obj => .ok (s.setWUnsubscribeEvent ((obj.conn, svcCookie, ev) :: s.w.unsubscribeEvent))
       else .ok s
 
 /-- `remove_all_events_subscription` -/
@@ -147,11 +174,11 @@ def removeAllEventsSubscription (s : St) (cid : ConnId) (svcCookie : Cookie) : E
     | none => .error (.inconsistent "remove_all_events_subscription: svcs")
     | some svc =>
       let (svc, last) := svc.unsubscribeAll cid
-      let s := { s with b := { s.b with svcs := AL.insert (objId.uuid, svcUuid) svc s.b.svcs } }
+      let s := (s.setSvcs (AL.insert (objId.uuid, svcUuid) svc s.b.svcs))
       if last then
         match AL.find? objId.uuid s.b.objs with
         | none => .error (.inconsistent "remove_all_events_subscription: objs")
-        | some obj => .ok { s with w := { s.w with unsubscribeAll := (obj.conn, svcCookie) :: s.w.unsubscribeAll } }
+        | some obj => .ok (s.setWUnsubscribeAll ((obj.conn, svcCookie) :: s.w.unsubscribeAll))
       else .ok s
 
 /-- `remove_subscription` -/
@@ -162,7 +189,7 @@ def removeSubscription (s : St) (cid : ConnId) (svcCookie : Cookie) : Except Pan
     match AL.find? (objId.uuid, svcUuid) s.b.svcs with
     | none => .error (.inconsistent "remove_subscription: svcs")
     | some svc =>
-      .ok { s with b := { s.b with svcs := AL.insert (objId.uuid, svcUuid) { svc with subs := sremove cid svc.subs } s.b.svcs } }
+      .ok (s.setSvcs (AL.insert (objId.uuid, svcUuid) { svc with subs := sremove cid svc.subs } s.b.svcs))
 
 /-- `remove_channel_end` -/
 def removeChannelEnd (s : St) (cookie : Cookie) (e : ChanEnd) (owner : Option ConnId) : Except Panic St :=
@@ -177,13 +204,13 @@ def removeChannelEnd (s : St) (cookie : Cookie) (e : ChanEnd) (owner : Option Co
     match ch.close e with
     | .error p => .error p
     | .ok (ch', other) =>
-      let s := { s with b := { s.b with channels := AL.insert cookie ch' s.b.channels } }
+      let s := (s.setChannels (AL.insert cookie ch' s.b.channels))
       let (s, remove) := match other with
         | some oid =>
           if (s.conn? oid).isSome then (s.sendOrRemove oid (.channelEndClosed cookie e), false) else (s, true)
         | none => (s, true)
       if remove then
-        .ok ({ s with b := { s.b with channels := AL.erase cookie s.b.channels } }.stat
+        .ok ((s.setChannels (AL.erase cookie s.b.channels)).stat
           (fun st => { st with numChannels := st.numChannels - 1 }))
       else .ok s
 
@@ -204,7 +231,7 @@ def askIntrospection (s : St) (ty : Uuid) (entry : IEntry) : Except Panic St :=
   match entry.queryRandomConn serial with
   | .error p => .error p
   | .ok (entry, cid) =>
-    let s := { s with b := { s.b with iqueries := iq, introspection := AL.insert ty entry s.b.introspection } }
+    let s := ((s.setIqueries (iq)).setIntrospection (AL.insert ty entry s.b.introspection))
     if (s.conn? cid).isNone then .error (.inconsistent "query introspection: conn") else
     .ok (s.sendOrRemove cid (.queryIntrospection serial ty))
 
@@ -233,12 +260,12 @@ def removeIntrospectionConn (s : St) (cid : ConnId) : Except Panic St :=
       | _, _ => entry'
     (if retain then acc.1 ++ [(ty, entry')] else acc.1, res)
   let (entries, results) := s.b.introspection.foldl step ([], [])
-  let s := { s with b := { s.b with introspection := entries } }
+  let s := (s.setIntrospection (entries))
   let rec go (s : St) : List (Nat × Option Uuid × List IQuery) → Except Panic St
     | [] => .ok s
     | (serial, cont, pending) :: rest =>
       if (s.b.iqueries.get? serial).isNone then .error (.inconsistent "remove_introspection_conn: serial") else
-      let s := { s with b := { s.b with iqueries := s.b.iqueries.remove serial } }
+      let s := (s.setIqueries (s.b.iqueries.remove serial))
       match cont with
       | none => match replyPending s pending none false with
         | .error p => .error p
@@ -264,10 +291,10 @@ def shutdownConnection (s : St) (id : ConnId) (sendShutdown : Bool) : Except Pan
   | some conn =>
     -- the connection is removed first; the Shutdown message goes to the removed state's queue
     let s := if sendShutdown then
-        let s := { s with b := { s.b with stats := { s.b.stats with messagesSent := s.b.stats.messagesSent + 1 } } }
-        if conn.alive then { s with out := s.out ++ [⟨id, .shutdown, none⟩] } else s
+        let s := s.stat (fun st => { st with messagesSent := st.messagesSent + 1 })
+        if conn.alive then (s.setOut (s.out ++ [⟨id, .shutdown, none⟩])) else s
       else s
-    let s := { s with b := { s.b with conns := AL.erase id s.b.conns } }
+    let s := (s.setConns (AL.erase id s.b.conns))
     let s := conn.busListeners.foldl removeBusListener s
     match foldE removeObject s conn.objects with
     | .error e => .error e
@@ -287,7 +314,7 @@ def shutdownConnection (s : St) (id : ConnId) (sendShutdown : Bool) : Except Pan
     match foldE (fun s c => removeChannelEnd s c .receiver (some id)) s conn.receivers with
     | .error e => .error e
     | .ok s =>
-    let s := conn.calls.foldl (fun s p => { s with w := { s.w with abortCalls := (p.2.1, p.2.2) :: s.w.abortCalls } }) s
+    let s := conn.calls.foldl (fun s p => (s.setWAbortCalls ((p.2.1, p.2.2) :: s.w.abortCalls))) s
     let s := s.stat (fun st => { st with numConnections := st.numConnections - 1 })
     removeIntrospectionConn s id
 
@@ -304,10 +331,9 @@ def createObject (s : St) (id : ConnId) (serial : Nat) (uuid : Uuid) : H :=
       let (s, cookie) := s.freshCookie
       let (s, ok) := s.send id (.createObjectReply serial (.ok cookie))
       if !ok then errH s else
-      let s := { s with b := { s.b with objUuids := AL.insert cookie uuid s.b.objUuids,
-                                        objs := AL.insert uuid ⟨id, cookie, []⟩ s.b.objs } }
+      let s := ((s.setObjUuids (AL.insert cookie uuid s.b.objUuids)).setObjs (AL.insert uuid ⟨id, cookie, []⟩ s.b.objs))
       let s := s.updConn id (fun c => { c with objects := sinsert cookie c.objects })
-      let s := { s with w := { s.w with createObject := ⟨uuid, cookie⟩ :: s.w.createObject } }
+      let s := (s.setWCreateObject (⟨uuid, cookie⟩ :: s.w.createObject))
       okH (s.stat (fun st => { st with numObjects := st.numObjects + 1 }))
 
 def destroyObject (s : St) (id : ConnId) (serial : Nat) (cookie : Cookie) : H :=
@@ -348,11 +374,10 @@ def createServiceImpl (s : St) (id : ConnId) (serial : Nat) (objCookie : Cookie)
           let (s, ok) := s.send id (.createServiceReply serial (.ok cookie))
           if !ok then errH s else
           let objId : ObjId := ⟨objUuid, objCookie⟩
-          let s := { s with b := { s.b with
-            svcUuids := AL.insert cookie (objId, uuid, info) s.b.svcUuids,
-            svcs := AL.insert (objUuid, uuid) { cookie := cookie, objCookie := objCookie } s.b.svcs,
-            objs := AL.insert objUuid { obj with svcs := sinsert cookie obj.svcs } s.b.objs } }
-          let s := { s with w := { s.w with createService := ⟨objId, uuid, cookie⟩ :: s.w.createService } }
+          let s := ((s.setSvcUuids (AL.insert cookie (objId, uuid, info) s.b.svcUuids)).setSvcs
+            (AL.insert (objUuid, uuid) { cookie := cookie, objCookie := objCookie } s.b.svcs)).setObjs
+            (AL.insert objUuid { obj with svcs := sinsert cookie obj.svcs } s.b.objs)
+          let s := (s.setWCreateService (⟨objId, uuid, cookie⟩ :: s.w.createService))
           okH (s.stat (fun st => { st with numServices := st.numServices + 1 }))
 
 def createService (s : St) (id : ConnId) (serial : Nat) (objCookie : Cookie) (uuid : Uuid) (version : Nat) : H :=
@@ -398,9 +423,9 @@ def callFunctionImpl (s : St) (id : ConnId) (serial : Nat) (svcCookie : Cookie) 
         let (calls, bserial) := s.b.calls.insert ⟨serial, id, objId.uuid, svcUuid, false⟩
         if (AL.find? serial conn.calls).isSome then
           -- duplicate caller serial: the entry is removed again (the serial counter has advanced)
-          errH { s with b := { s.b with calls := calls.remove bserial } }
+          errH (s.setCalls (calls.remove bserial))
         else
-          let s := { s with b := { s.b with calls := calls } }
+          let s := (s.setCalls (calls))
           let s := s.setConn id { conn with calls := conn.calls ++ [(serial, (bserial, calleeId))] }
           match s.conn? calleeId with
           | none => .error (.inconsistent "call_function: callee conn")
@@ -408,7 +433,7 @@ def callFunctionImpl (s : St) (id : ConnId) (serial : Nat) (svcCookie : Cookie) 
             match AL.find? (objId.uuid, svcUuid) s.b.svcs with
             | none => .error (.inconsistent "call_function: svcs")
             | some svc =>
-              let s := { s with b := { s.b with svcs := AL.insert (objId.uuid, svcUuid) { svc with calls := sinsert bserial svc.calls } s.b.svcs } }
+              let s := (s.setSvcs (AL.insert (objId.uuid, svcUuid) { svc with calls := sinsert bserial svc.calls } s.b.svcs))
               let msg := if callee.version ≥ callFunction2MinCallee
                 then Rsp.callFunction2 bserial svcCookie function version p
                 else Rsp.callFunction bserial svcCookie function p
@@ -430,11 +455,11 @@ def callFunctionReply (s : St) (id : ConnId) (serial : Nat) (r : CallResult) : H
       | none => .error (.inconsistent "call_function_reply: objs")
       | some obj =>
         if obj.conn ≠ id then okH s else
-        let s := { s with b := { s.b with calls := s.b.calls.remove serial } }
+        let s := (s.setCalls (s.b.calls.remove serial))
         match AL.find? (call.calleeObj, call.calleeSvc) s.b.svcs with
         | none => .error (.inconsistent "call_function_reply: svcs")
         | some svc =>
-          let s := { s with b := { s.b with svcs := AL.insert (call.calleeObj, call.calleeSvc) { svc with calls := sremove serial svc.calls } s.b.svcs } }
+          let s := (s.setSvcs (AL.insert (call.calleeObj, call.calleeSvc) { svc with calls := sremove serial svc.calls } s.b.svcs))
           if call.aborted then okH s else
           match s.conn? call.callerConn with
           | none => okH s
@@ -451,7 +476,7 @@ def abortFunctionCall (s : St) (id : ConnId) (serial : Nat) : H :=
     match AL.find? serial conn.calls with
     | none => okH s
     | some (calleeSerial, calleeId) =>
-      okH { s with w := { s.w with abortCalls := (calleeSerial, calleeId) :: s.w.abortCalls } }
+      okH (s.setWAbortCalls ((calleeSerial, calleeId) :: s.w.abortCalls))
 
 def subscribeEvent (s : St) (id : ConnId) (serial : Option Nat) (svcCookie : Cookie) (ev : Nat) : H :=
   match serial with
@@ -470,7 +495,7 @@ def subscribeEvent (s : St) (id : ConnId) (serial : Option Nat) (svcCookie : Coo
         | none => .error (.inconsistent "subscribe_event: svcs")
         | some svc =>
           let (svc, first) := svc.subscribeEvent ev id
-          let s := { s with b := { s.b with svcs := AL.insert (objId.uuid, svcUuid) svc s.b.svcs } }
+          let s := (s.setSvcs (AL.insert (objId.uuid, svcUuid) svc s.b.svcs))
           if first then
             match AL.find? objId.uuid s.b.objs with
             | none => .error (.inconsistent "subscribe_event: objs")
@@ -490,7 +515,7 @@ def unsubscribeEvent (s : St) (id : ConnId) (svcCookie : Cookie) (ev : Nat) : H 
       | some _ =>
         let s := s.updConn id (fun c => c.unsubscribeEvent svcCookie ev)
         let (svc, last) := svc.unsubscribeEvent ev id
-        let s := { s with b := { s.b with svcs := AL.insert (objId.uuid, svcUuid) svc s.b.svcs } }
+        let s := (s.setSvcs (AL.insert (objId.uuid, svcUuid) svc s.b.svcs))
         if last then
           match AL.find? objId.uuid s.b.objs with
           | none => .error (.inconsistent "unsubscribe_event: objs")
@@ -538,7 +563,7 @@ def subscribeService (s : St) (id : ConnId) (serial : Nat) (svcCookie : Cookie) 
       match AL.find? (objId.uuid, svcUuid) s.b.svcs with
       | none => .error (.inconsistent "subscribe_service: svcs")
       | some svc =>
-        let s := { s with b := { s.b with svcs := AL.insert (objId.uuid, svcUuid) { svc with subs := sinsert id svc.subs } s.b.svcs } }
+        let s := (s.setSvcs (AL.insert (objId.uuid, svcUuid) { svc with subs := sinsert id svc.subs } s.b.svcs))
         okH (s.updConn id (fun c => { c with subscriptions := sinsert svcCookie c.subscriptions }))
 
 def unsubscribeService (s : St) (id : ConnId) (svcCookie : Cookie) : H :=
@@ -552,7 +577,7 @@ def unsubscribeService (s : St) (id : ConnId) (svcCookie : Cookie) : H :=
       match AL.find? (objId.uuid, svcUuid) s.b.svcs with
       | none => .error (.inconsistent "unsubscribe_service: svcs")
       | some svc =>
-        let s := { s with b := { s.b with svcs := AL.insert (objId.uuid, svcUuid) { svc with subs := sremove id svc.subs } s.b.svcs } }
+        let s := (s.setSvcs (AL.insert (objId.uuid, svcUuid) { svc with subs := sremove id svc.subs } s.b.svcs))
         okH (s.updConn id (fun c => { c with subscriptions := sremove svcCookie c.subscriptions }))
 
 def subscribeAllEvents (s : St) (id : ConnId) (serial : Option Nat) (svcCookie : Cookie) : H :=
@@ -581,7 +606,7 @@ def subscribeAllEvents (s : St) (id : ConnId) (serial : Option Nat) (svcCookie :
             | none => .error (.inconsistent "subscribe_all_events: svcs")
             | some svc =>
               let (svc, first) := svc.subscribeAll id
-              let s := { s with b := { s.b with svcs := AL.insert (objId.uuid, svcUuid) svc s.b.svcs } }
+              let s := (s.setSvcs (AL.insert (objId.uuid, svcUuid) svc s.b.svcs))
               if first then okH (s.send obj.conn (.subscribeAllEvents svcCookie)).1 else okH s
 
 def unsubscribeAllEvents (s : St) (id : ConnId) (serial : Option Nat) (svcCookie : Cookie) : H :=
@@ -614,7 +639,7 @@ def unsubscribeAllEvents (s : St) (id : ConnId) (serial : Option Nat) (svcCookie
             | none => .error (.inconsistent "unsubscribe_all_events: svcs")
             | some svc =>
               let (svc, last) := svc.unsubscribeAll id
-              let s := { s with b := { s.b with svcs := AL.insert (objId.uuid, svcUuid) svc s.b.svcs } }
+              let s := (s.setSvcs (AL.insert (objId.uuid, svcUuid) svc s.b.svcs))
               if last then okH (s.send obj.conn (.unsubscribeAllEvents svcCookie)).1 else okH s
 
 def createChannel (s : St) (id : ConnId) (serial : Nat) (e : ChanEnd) (cap : Nat) : H :=
@@ -625,7 +650,7 @@ def createChannel (s : St) (id : ConnId) (serial : Nat) (e : ChanEnd) (cap : Nat
     let (s, ch) := match e with
       | .sender => (s.updConn id (fun c => { c with senders := sinsert cookie c.senders }), Chan.withClaimedSender id)
       | .receiver => (s.updConn id (fun c => { c with receivers := sinsert cookie c.receivers }), Chan.withClaimedReceiver id cap)
-    let s := { s with b := { s.b with channels := AL.insert cookie ch s.b.channels } }
+    let s := (s.setChannels (AL.insert cookie ch s.b.channels))
     if createChannelCountsBeforeReply then
       let s := s.stat (fun st => { st with numChannels := st.numChannels + 1 })
       let (s, ok) := s.send id (.createChannelReply serial cookie)
@@ -671,7 +696,7 @@ def claimChannelEnd (s : St) (id : ConnId) (serial : Nat) (cookie : Cookie) (e :
       | .error p => .error p
       | .ok (.error r) => .ok (s.send id (.claimChannelEndReply serial r))
       | .ok (.ok (ch', other, r)) =>
-        let s := { s with b := { s.b with channels := AL.insert cookie ch' s.b.channels } }
+        let s := (s.setChannels (AL.insert cookie ch' s.b.channels))
         let s := s.updConn id (fun c => match e with
           | .sender => { c with senders := sinsert cookie c.senders }
           | .receiver => { c with receivers := sinsert cookie c.receivers })
@@ -691,7 +716,7 @@ def addChannelCapacity (s : St) (id : ConnId) (cookie : Cookie) (cap : Nat) : H 
       | .error p => .error p
       | .ok s => okH s
     | .ok (some (ch', fwd)) =>
-      let s := { s with b := { s.b with channels := AL.insert cookie ch' s.b.channels } }
+      let s := (s.setChannels (AL.insert cookie ch' s.b.channels))
       match fwd with
       | none => okH s
       | some (senderId, diff) =>
@@ -719,7 +744,7 @@ def sendItem (s : St) (id : ConnId) (cookie : Cookie) (p : Payload) : H :=
         | .ok s => okH s
       | .ok (.error _) => okH s
       | .ok (.ok (ch', receiverId, add)) =>
-        let s := { s with b := { s.b with channels := AL.insert cookie ch' s.b.channels } }
+        let s := (s.setChannels (AL.insert cookie ch' s.b.channels))
         if (s.conn? receiverId).isNone then okH s else
         let s := s.sendOrRemove receiverId (.itemReceived cookie p) (some sender.version)
         match add with
@@ -740,7 +765,7 @@ def createBusListener (s : St) (id : ConnId) (serial : Nat) : H :=
     if !ok then errH s else
     let s := s.stat (fun st => { st with numBusListeners := st.numBusListeners + 1 })
     let s := s.updConn id (fun c => { c with busListeners := sinsert cookie c.busListeners })
-    okH { s with b := { s.b with listeners := AL.insert cookie { conn := id } s.b.listeners } }
+    okH (s.setListeners (AL.insert cookie { conn := id } s.b.listeners))
 
 def destroyBusListener (s : St) (id : ConnId) (serial : Nat) (cookie : Cookie) : H :=
   match s.conn? id with
@@ -756,7 +781,7 @@ def destroyBusListener (s : St) (id : ConnId) (serial : Nat) (cookie : Cookie) :
 
 def updListener (s : St) (id : ConnId) (cookie : Cookie) (f : Listener → Listener) : H :=
   match AL.find? cookie s.b.listeners with
-  | some l => if l.conn = id then okH { s with b := { s.b with listeners := AL.insert cookie (f l) s.b.listeners } } else okH s
+  | some l => if l.conn = id then okH (s.setListeners (AL.insert cookie (f l) s.b.listeners)) else okH s
   | none => okH s
 
 /-- send each of a list of messages to `id`, stopping (with `Err`) at the first failed send -/
@@ -775,7 +800,7 @@ def startBusListener (s : St) (id : ConnId) (serial : Nat) (cookie : Cookie) (sc
       if l.conn ≠ id then .ok (s.send id (.startBusListenerReply serial .invalid)) else
       if l.scope.isSome then .ok (s.send id (.startBusListenerReply serial .alreadyStarted)) else
       let l := { l with scope := some scope }
-      let s := { s with b := { s.b with listeners := AL.insert cookie l s.b.listeners } }
+      let s := (s.setListeners (AL.insert cookie l s.b.listeners))
       let (s, ok) := s.send id (.startBusListenerReply serial .ok)
       if !ok then errH s else
       if scope = .new then okH s else
@@ -804,7 +829,7 @@ def stopBusListener (s : St) (id : ConnId) (serial : Nat) (cookie : Cookie) : H 
     | some l =>
       if l.conn ≠ id then .ok (s.send id (.stopBusListenerReply serial .invalid)) else
       if l.scope.isSome then
-        let s := { s with b := { s.b with listeners := AL.insert cookie { l with scope := none } s.b.listeners } }
+        let s := (s.setListeners (AL.insert cookie { l with scope := none } s.b.listeners))
         .ok (s.send id (.stopBusListenerReply serial .ok))
       else .ok (s.send id (.stopBusListenerReply serial .notStarted))
 
@@ -818,7 +843,7 @@ def registerIntrospection (s : St) (id : ConnId) (types : Option (List Uuid)) : 
     | some tys =>
       okH (tys.foldl (fun s ty =>
         let entry : IEntry := (AL.find? ty s.b.introspection).getD (IEntry.mk [] none none [])
-        { s with b := { s.b with introspection := AL.insert ty (entry.register id) s.b.introspection } }) s)
+        (s.setIntrospection (AL.insert ty (entry.register id) s.b.introspection))) s)
 
 def queryIntrospection (s : St) (id : ConnId) (serial : Nat) (ty : Uuid) : H :=
   match s.conn? id with
@@ -832,7 +857,7 @@ def queryIntrospection (s : St) (id : ConnId) (serial : Nat) (ty : Uuid) : H :=
       | some i => .ok (s.send id (.queryIntrospectionReply serial (some i)))
       | none =>
         let entry := { entry with pending := entry.pending ++ [⟨id, serial⟩] }
-        let s := { s with b := { s.b with introspection := AL.insert ty entry s.b.introspection } }
+        let s := (s.setIntrospection (AL.insert ty entry s.b.introspection))
         if entry.queried.isNone then
           match askIntrospection s ty entry with
           | .error p => .error p
@@ -858,12 +883,12 @@ def queryIntrospectionReply (s : St) (id : ConnId) (serial : Nat) (r : Option Pa
           if q.serial ≠ serial then .error (.debugAssert "query_replied: serial") else
           if entry.introspection.isSome then .error (.debugAssert "query_replied: introspection") else
           let entry := { entry with queried := none }
-          let s := { s with b := { s.b with iqueries := s.b.iqueries.remove serial } }
+          let s := (s.setIqueries (s.b.iqueries.remove serial))
           match r with
           | some i =>
             let pending := entry.pending
             let entry := { entry with pending := [], introspection := some i }
-            let s := { s with b := { s.b with introspection := AL.insert ty entry s.b.introspection } }
+            let s := (s.setIntrospection (AL.insert ty entry s.b.introspection))
             match replyPending s pending (some i) true with
             | .error p => .error p
             | .ok s => okH s
@@ -874,7 +899,7 @@ def queryIntrospectionReply (s : St) (id : ConnId) (serial : Nat) (r : Option Pa
               | .error p => .error p
               | .ok s => okH s
             else
-              let s := { s with b := { s.b with introspection := AL.erase ty s.b.introspection } }
+              let s := (s.setIntrospection (AL.erase ty s.b.introspection))
               match replyPending s entry.pending none true with
               | .error p => .error p
               | .ok s => okH s
@@ -942,8 +967,8 @@ def handleEvent (s : St) : Event → Except Panic St
       let s := if ok then s else s.pushRemoveConn id false
       .ok (s.stat (fun st => { st with messagesReceived := st.messagesReceived + 1 }))
   | .shutdownBroker =>
-    .ok { s with w := { s.w with removeConns := (s.b.conns.map (fun p => (p.1, true))).reverse ++ s.w.removeConns, shutdownNow := true } }
-  | .shutdownIdle => .ok { s with w := { s.w with shutdownIdle := true } }
+    .ok ((s.setWRemoveConns ((s.b.conns.map (fun p => (p.1, true))).reverse ++ s.w.removeConns)).setWShutdownNow (true))
+  | .shutdownIdle => .ok (s.setWShutdownIdle (true))
   | .shutdownConn id => .ok (s.pushRemoveConn id true)
   | .taskDropped id => .ok (s.updConn id (fun c => { c with alive := false }))
 
@@ -959,7 +984,7 @@ def abortCall (s : St) (calleeSerial : Nat) (calleeId : ConnId) : Except Panic S
   | none => .ok s
   | some call =>
     if call.aborted then .ok s else
-    let s := { s with b := { s.b with calls := s.b.calls.set calleeSerial { call with aborted := true } } }
+    let s := (s.setCalls (s.b.calls.set calleeSerial { call with aborted := true }))
     let s := match s.conn? calleeId with
       | some c => if c.version ≥ abortMinCallee then s.sendOrRemove calleeId (.abortFunctionCall calleeSerial) else s
       | none => s
@@ -974,26 +999,26 @@ def abortCall (s : St) (calleeSerial : Nat) (calleeId : ConnId) : Except Panic S
 `none` = no work left. -/
 def processOne (s : St) : Option (Except Panic St) :=
   match s.w.removeConns with
-  | (cid, sendShutdown) :: rest => some (shutdownConnection { s with w := { s.w with removeConns := rest } } cid sendShutdown)
+  | (cid, sendShutdown) :: rest => some (shutdownConnection (s.setWRemoveConns (rest)) cid sendShutdown)
   | [] =>
   match s.w.unsubscribeEvent with
   | (cid, svc, ev) :: rest =>
-    let s := { s with w := { s.w with unsubscribeEvent := rest } }
+    let s := (s.setWUnsubscribeEvent (rest))
     some (.ok (if (s.conn? cid).isSome then s.sendOrRemove cid (.unsubscribeEvent svc ev) else s))
   | [] =>
   match s.w.unsubscribeAll with
   | (cid, svc) :: rest =>
-    let s := { s with w := { s.w with unsubscribeAll := rest } }
+    let s := (s.setWUnsubscribeAll (rest))
     some (.ok (if (s.conn? cid).isSome then s.sendOrRemove cid (.unsubscribeAllEvents svc) else s))
   | [] =>
   match s.w.servicesDestroyed with
   | (cid, svc) :: rest =>
-    let s := { s with w := { s.w with servicesDestroyed := rest } }
+    let s := (s.setWServicesDestroyed (rest))
     some (.ok (if (s.conn? cid).isSome then s.sendOrRemove cid (.serviceDestroyed svc) else s))
   | [] =>
   match s.w.removeCalls with
   | (serial, cid, result) :: rest =>
-    let s := { s with w := { s.w with removeCalls := rest } }
+    let s := (s.setWRemoveCalls (rest))
     some (match s.conn? cid with
       | none => .ok s
       | some c =>
@@ -1002,19 +1027,19 @@ def processOne (s : St) : Option (Except Panic St) :=
         .ok (s.sendOrRemove cid (.callFunctionReply serial result)))
   | [] =>
   match s.w.createObject with
-  | o :: rest => some (.ok (emitBusEvent { s with w := { s.w with createObject := rest } } (.objCreated o)))
+  | o :: rest => some (.ok (emitBusEvent (s.setWCreateObject (rest)) (.objCreated o)))
   | [] =>
   match s.w.createService with
-  | sv :: rest => some (.ok (emitBusEvent { s with w := { s.w with createService := rest } } (.svcCreated sv)))
+  | sv :: rest => some (.ok (emitBusEvent (s.setWCreateService (rest)) (.svcCreated sv)))
   | [] =>
   match s.w.destroyService with
-  | sv :: rest => some (.ok (emitBusEvent { s with w := { s.w with destroyService := rest } } (.svcDestroyed sv)))
+  | sv :: rest => some (.ok (emitBusEvent (s.setWDestroyService (rest)) (.svcDestroyed sv)))
   | [] =>
   match s.w.destroyObject with
-  | o :: rest => some (.ok (emitBusEvent { s with w := { s.w with destroyObject := rest } } (.objDestroyed o)))
+  | o :: rest => some (.ok (emitBusEvent (s.setWDestroyObject (rest)) (.objDestroyed o)))
   | [] =>
   match s.w.abortCalls with
-  | (serial, cid) :: rest => some (abortCall { s with w := { s.w with abortCalls := rest } } serial cid)
+  | (serial, cid) :: rest => some (abortCall (s.setWAbortCalls (rest)) serial cid)
   | [] => none
 
 /-- `process_loop_result` -/
